@@ -13,7 +13,7 @@ Component.declare_partials / Problem.check_partials):
 """
 import numpy as np
 
-from omv.gen.comps import HExplicit, HImplicit, _flat
+from omv.gen.comps import HExplicit, HImplicit, HImplicitMF, _flat
 
 EPS = float(np.finfo(float).eps)
 
@@ -170,25 +170,7 @@ class C12Explicit(_C12Mixin, HExplicit):
         self._c12_coloring()
 
 
-class C12Implicit(_C12Mixin, HImplicit):
-    def setup_partials(self):
-        cfg = self._c12()
-        self._omv_declare()
-        selfb = cfg.get('self', {})
-        for o in self._omv_T:
-            if o in selfb:
-                if not cfg.get('via_coloring_only') and not cfg.get('predeclare'):
-                    self.declare_partials(o, o, **decl_kwargs(selfb[o]))
-            else:
-                n = self._omv_T[o]['c'].size
-                self.declare_partials(o, o, rows=np.arange(n), cols=np.arange(n))
-        self._c12_coloring()
-
-    def apply_nonlinear(self, inputs, outputs, residuals):
-        if self._omv_hook:
-            self._omv_hook('apply_out', self._omv_cs['name'], {o: np.array(outputs[o]) for o in self._omv_T})
-        super().apply_nonlinear(inputs, outputs, residuals)
-
+class _CsSafeSolve:
     def solve_nonlinear(self, inputs, outputs):
         cplx = any(np.iscomplexobj(inputs[k]) for k in inputs) or any(np.iscomplexobj(outputs[o])
                                                                       for o in self._omv_T)
@@ -211,6 +193,30 @@ class C12Implicit(_C12Mixin, HImplicit):
                 y = y - r / (1.0 + self._omv_beta * np.cos(y))
             outputs[o] = y.reshape(outputs[o].shape)
 
+
+class C12ImplicitMF(_CsSafeSolve, HImplicitMF):
+    """matrix-free implicit harness component with the complex-safe solve_nonlinear."""
+
+
+class C12Implicit(_CsSafeSolve, _C12Mixin, HImplicit):
+    def setup_partials(self):
+        cfg = self._c12()
+        self._omv_declare()
+        selfb = cfg.get('self', {})
+        for o in self._omv_T:
+            if o in selfb:
+                if not cfg.get('via_coloring_only') and not cfg.get('predeclare'):
+                    self.declare_partials(o, o, **decl_kwargs(selfb[o]))
+            else:
+                n = self._omv_T[o]['c'].size
+                self.declare_partials(o, o, rows=np.arange(n), cols=np.arange(n))
+        self._c12_coloring()
+
+    def apply_nonlinear(self, inputs, outputs, residuals):
+        if self._omv_hook:
+            self._omv_hook('apply_out', self._omv_cs['name'], {o: np.array(outputs[o]) for o in self._omv_T})
+        super().apply_nonlinear(inputs, outputs, residuals)
+
     def linearize(self, inputs, outputs, partials):
         if self._omv_hook:
             self._omv_hook('linearize', self._omv_cs['name'], {k: np.array(inputs[k]) for k in inputs})
@@ -225,8 +231,8 @@ class C12Implicit(_C12Mixin, HImplicit):
 def comp_factory(c, hook):
     if c['kind'] == 'exp' and not c.get('matfree'):
         return C12Explicit(c, hook)
-    if c['kind'] == 'imp' and not c.get('matfree'):
-        return C12Implicit(c, hook)
+    if c['kind'] == 'imp':
+        return C12ImplicitMF(c, hook) if c.get('matfree') else C12Implicit(c, hook)
     return None
 
 
